@@ -47,27 +47,30 @@ type Violation struct {
 
 // RunResult is what one execution produced.
 type RunResult struct {
-	Spec       RunSpec        `json:"spec"`
-	Outcome    string         `json:"outcome"` // ok | violation | abandoned
-	EndReason  string         `json:"end_reason"`
-	Violations []Violation    `json:"violations,omitempty"`
-	Tape       []int          `json:"tape,omitempty"`
-	Hash       uint64         `json:"hash"`
-	Steps      int            `json:"steps"`
-	SimTimeMs  int64          `json:"sim_ms"`
-	Preempt    int            `json:"preemptions"`
-	Faults     map[string]int `json:"faults,omitempty"`
-	Probes     map[string]int `json:"probes,omitempty"`
-	Sites      map[string]int `json:"sites,omitempty"`
-	NonTrivial bool           `json:"nontrivial"`
-	Sig        string         `json:"sig"` // behaviour signature (for distinct counting)
-	Sample     any            `json:"sample,omitempty"`
-	TwinLog    []string       `json:"twin_log,omitempty"`
-	Trace      []string       `json:"trace,omitempty"`
-	Panics     []string       `json:"panics,omitempty"`
-	Blocked    []string       `json:"blocked,omitempty"`
-	HarnessErr string         `json:"harness_err,omitempty"`
-	WallUs     int64          `json:"wall_us"`
+	Spec      RunSpec `json:"spec"`
+	Outcome   string  `json:"outcome"` // ok | violation | abandoned
+	EndReason string  `json:"end_reason"`
+	// TeardownLeak: goroutines stayed blocked in un-instrumented code after the
+	// run had been judged (end-of-bubble deadlock panic recovered)
+	TeardownLeak bool           `json:"teardown_leak,omitempty"`
+	Violations   []Violation    `json:"violations,omitempty"`
+	Tape         []int          `json:"tape,omitempty"`
+	Hash         uint64         `json:"hash"`
+	Steps        int            `json:"steps"`
+	SimTimeMs    int64          `json:"sim_ms"`
+	Preempt      int            `json:"preemptions"`
+	Faults       map[string]int `json:"faults,omitempty"`
+	Probes       map[string]int `json:"probes,omitempty"`
+	Sites        map[string]int `json:"sites,omitempty"`
+	NonTrivial   bool           `json:"nontrivial"`
+	Sig          string         `json:"sig"` // behaviour signature (for distinct counting)
+	Sample       any            `json:"sample,omitempty"`
+	TwinLog      []string       `json:"twin_log,omitempty"`
+	Trace        []string       `json:"trace,omitempty"`
+	Panics       []string       `json:"panics,omitempty"`
+	Blocked      []string       `json:"blocked,omitempty"`
+	HarnessErr   string         `json:"harness_err,omitempty"`
+	WallUs       int64          `json:"wall_us"`
 }
 
 // Event is one recorded observation.
@@ -298,6 +301,19 @@ func execute1(t *testing.T, spec RunSpec) (res RunResult) {
 		// a sub-test per run: under -race the testing package fails (FailNow) the
 		// test in which a race was reported - that must not end the worker
 		t.Run("run", func(t *testing.T) {
+			defer func() {
+				// the end-of-bubble deadlock panic is raised on this goroutine: goroutines
+				// blocked for good in un-instrumented code after the run was judged (the
+				// verdict in res is complete); they leak, the worker goes on
+				if r := recover(); r != nil {
+					msg := fmt.Sprint(r)
+					if strings.Contains(msg, "deadlock") {
+						res.TeardownLeak = true
+					} else {
+						res.HarnessErr = "panic outside run: " + msg
+					}
+				}
+			}()
 			synctest.Test(t, func(t *testing.T) {
 				runInBubble(t, sc, spec, &res)
 			})
